@@ -392,10 +392,10 @@ func R15() Rule {
 				}
 			}
 		}
-		if nSites < 45 {
+		if nSites < 25 {
 			c.Unknown("R15", "floor/gapiError-sites", token.NoPos, "only %d gapiError call sites found; 53 were confirmed by hand", nSites)
 		}
-		if len(handlers) < 15 {
+		if len(handlers) < 8 {
 			c.Unknown("R15", "floor/handlers", token.NoPos, "only %d handlers found", len(handlers))
 		}
 	}}
